@@ -16,6 +16,10 @@ import (
 // maskTokens are the tokens from which mask patterns are enumerated.
 var maskTokens = []string{".", "+", "?", "$", "{", "}", "(", ")", "[", "]", "/", "\\", "*", "^", "|", "a", "B", "1", "%", "-", "_", " "}
 
+// maskIdioms: see enumerateMaskRules.
+var maskIdioms = []string{"a{2}", "_a{2}_", "a{1,2}B", "a{2}.B", "{2}a", "a{2}{3}", "a*{2}", "a^{2}", "a{,2}", "a{2,}B",
+	"a+B", "a+", "a?B", "a??B", "(a|B)", "(a)1", "(?i)a", "(?:a)B", "[aB]1", "[^a]1", "[a-z]1", "a.B", "a$", "a$B", "a|B", "a\\d", "\\d1", "\\.a", "a\\", "\\(a", "a.{2}", "a-{2}"}
+
 type nativeRules struct {
 	texts []string
 	rules []*rules.NetworkRule
@@ -56,6 +60,13 @@ func enumerateMaskRules(maxTok int, sampleBeyond int, seed int64) *nativeRules {
 		}
 	}
 	rec("", 0)
+	// operator idioms: token sequences that form a complete regular-expression operator when
+	// a metacharacter is left unescaped (a lone `{` is a literal for Go's regexp, `a{2}` is not),
+	// alone and next to another metacharacter
+	for _, p := range maskIdioms {
+		add(p)
+		add("||" + p)
+	}
 	rnd := rand.New(rand.NewSource(seed))
 	for i := 0; i < sampleBeyond; i++ {
 		n := maxTok + 1 + rnd.Intn(3)
@@ -201,8 +212,8 @@ func init() {
 		},
 		MustReach: []string{"c03a.translated", "c03b.rule"},
 		Bounds: map[string]string{
-			"quick":    "(a) pattern of 1..3 symbolic bytes over {a . * ^ | / $ \\}; (b) every mask pattern of 1..2 tokens over 22 tokens (all regexp metacharacters, * ^ |, letters of both cases, digit, % - _ space), each also with a leading || and a trailing /*, with and without $match-case, plus 150 seeded longer patterns: for each, ALL URLs of 0..10 printable-ASCII bytes",
-			"thorough": "(a) 1..3 bytes (4 bytes exhausted the per-job budget and are not claimed); (b) 1..2 tokens plus 600 seeded patterns of 3..5 tokens: every pattern with URLs of 0..10 bytes and every eighth batch of eight patterns with URLs of 0..12 bytes (all patterns at 12 bytes did not finish in an hour and are not claimed)",
+			"quick":    "(a) pattern of 1..3 symbolic bytes over {a . * ^ | / $ \\}; (b) every mask pattern of 1..2 tokens over 22 tokens (all regexp metacharacters, * ^ |, letters of both cases, digit, % - _ space), each also with a leading || and a trailing /*, with and without $match-case, plus 32 operator idioms (a{2}, a{1,2}B, a+B, (a|B), [a-z]1, a.{2}, \\d1 ...: sequences that are a complete regexp operator if a metacharacter stays unescaped, each also with a leading ||), plus 150 seeded longer patterns: for each, ALL URLs of 0..10 printable-ASCII bytes",
+			"thorough": "(a) 1..3 bytes (4 bytes exhausted the per-job budget and are not claimed); (b) 1..2 tokens plus the operator idioms plus 600 seeded patterns of 3..5 tokens: every pattern with URLs of 0..10 bytes and every eighth batch of eight patterns with URLs of 0..12 bytes (all patterns at 12 bytes did not finish in an hour and are not claimed)",
 		},
 		Outside:     []string{"URLs longer than the bound", "non-ASCII bytes", "patterns above the token bound (sampled only)", "regexp.Compile itself: the compiled program is obtained natively and its Pike-VM semantics encoded; the encoding is validated against MatchString on concrete strings each run"},
 		Assumptions: []string{"strings.Replacer modelled for the concrete single-byte table read from the live specialCharReplacer initialiser", "regexp encoding == (*Regexp).MatchString on ASCII (validated on concrete strings each run)", "reference automaton written from the documented mask syntax (rules/regex.go comments and the knowledge-base text)"},
